@@ -189,6 +189,23 @@ def real_tokens(repo, sec, log):
                 ss = rtok.expand_macro(ss, mname, mtext, log, label)
             except rtok.ExtractError as e:
                 raise UnitError(str(e))
+    if "tysub" in kv:
+        # R18: associated type written out (`Self::Item` of the trait impl the method is re-homed from)
+        for item in kv["tysub"].split(";"):
+            a, b = item.split("=>")
+            at = rtok.strs(rtok.tokenize(a))
+            bt = rtok.strs(rtok.tokenize(b))
+            out_ss = []
+            i = 0
+            while i < len(ss):
+                if ss[i:i + len(at)] == at:
+                    out_ss.extend(bt)
+                    i += len(at)
+                    log.append({"rule": "R18", "function": label, "from": a, "to": b})
+                else:
+                    out_ss.append(ss[i])
+                    i += 1
+            ss = out_ss
     if "ufcs" in kv:
         ss = rtok.apply_ufcs(ss, kv["ufcs"].split(","), log, label)
     rules = [r for r in kv.get("rules", "R0").split(",") if r]
